@@ -328,12 +328,13 @@ def fresh_call(prop: str, fn: str, arg: Any, timeout: int = 300) -> Any:
     return json.loads(p.stdout.strip().splitlines()[-1])
 
 
-def write_replay(prop: str, v: dict) -> str:
-    d = os.path.join(VERIF, 'replays', prop)
+def write_replay(prop: str, v: dict, known: bool = False) -> str:
+    d = os.path.join(VERIF, 'replays', 'known' if known else prop)
     os.makedirs(d, exist_ok=True)
     blob = json.dumps({'property': prop, 'signature': v['sig'], 'case': v['case'], 'detail': v['detail']},
                       indent=1, sort_keys=True, default=str)
-    path = os.path.join(d, sha(blob.encode()) + '.json')
+    name = ''.join(c if c.isalnum() else '_' for c in v['sig']) if known else sha(blob.encode())
+    path = os.path.join(d, name + '.json')
     with open(path, 'w') as f:
         f.write(blob)
     return path
@@ -454,6 +455,7 @@ def run_check(prop: str, tier: str) -> int:
         v = by_sig[sig]
         if sig in known:
             known_hit.append(sig)
+            write_replay(prop, v, known=True)
             continue
         if 'history' in v['case'] and not hasattr(mod, 'run_case'):
             confirmed = True
